@@ -131,7 +131,7 @@ func hostileSkipCases(c *Ctx, n int, seedBase int64) []json.RawMessage {
 	rng := rand.New(rand.NewSource(c.Seed*998244353 + seedBase))
 	add := func(cs SkipCase) { out = append(out, mustJSON(cs)) }
 	bound := []int{0x00, 0x01, 0x7f, 0x80, 0xff, 0x0b, 0x0c, 0x0d, 0x0f, 0x10}
-	sizes := []string{"7fffffff", "80000000", "ffffffff", "00100001", "000fffff", "40000000"}
+	sizes := []string{"7fffffff", "7ffffffc", "7ffffffd", "80000000", "ffffffff", "00100001", "000fffff", "40000000"}
 	for i := 0; i < n; i++ {
 		t := allTypes[rng.Intn(len(allTypes))]
 		base := &GenRef{Kind: "value", Seed: rng.Int63(), Depth: 1 + rng.Intn(4), Budget: 2 + rng.Intn(14), Trail: rng.Intn(2)}
